@@ -635,6 +635,22 @@ fn main() {
         cx.emit_fit(if t == 1 { K_ENET } else { K_MTL }, &d, &h, &q, "tiny_column", true);
     }
 
+    // ---- stream H: targets of scale 1e-17 on correlated (offset) features: every coefficient is below
+    //      f64::EPSILON in magnitude, which `abs_diff_ne!(w[j], 0)` takes for zero ----
+    let nh = if thorough { 40 } else { 6 };
+    for i in 0..nh {
+        let mut r = rng.fork();
+        let t = if i % 3 == 2 { 2 } else { 1 };
+        let mut d = gen_data(&mut r, 1, t, maxn, Some(2 + (i % 2) as usize));
+        for row in d.y.iter_mut() { for v in row.iter_mut() { *v *= 1e-17; } }
+        let mut h = pick_hp(&mut r, 1, true, thorough);
+        h.pen = *r.pick(&[0.0, 1e-3]);
+        h.l1r = 0.0;
+        h.icpt = false;
+        let q = gen_queries(&mut r, &d);
+        cx.emit_fit(if t == 1 { K_ENET } else { K_MTL }, &d, &h, &q, "tiny_target", true);
+    }
+
     // ---- stream D: ordinary least squares (full column rank), with the augmented-design differential ----
     let nd = if thorough { 700 } else { 140 };
     for _ in 0..nd {
